@@ -21,13 +21,29 @@ func (pt *pathTracker) stillOnUnfollowedRemotePath(newPath datamodel.Path) bool 
 	if pt.lastUnfollowedRemotePath.Len() == 0 {
 		return false
 	}
-	// are we still on it?
-	if newPath.Len() <= pt.lastUnfollowedRemotePath.Len() {
+	// are we still on it? only loads strictly below the unfollowed link are
+	if !isStrictlyBelow(newPath, pt.lastUnfollowedRemotePath) {
 		// if not, reset to no known missing remote path
 		pt.lastUnfollowedRemotePath = datamodel.NewPath(nil)
 		return false
 	}
 	// otherwise we're on a missing path
+	return true
+}
+
+// isStrictlyBelow determines whether path is longer than ancestor and starts
+// with every one of ancestor's segments. A longer path alone is not enough: a
+// link inside a sibling node (a/.. unfollowed, then b/c) is not below a
+func isStrictlyBelow(path datamodel.Path, ancestor datamodel.Path) bool {
+	if path.Len() <= ancestor.Len() {
+		return false
+	}
+	pathSegments := path.Segments()
+	for i, segment := range ancestor.Segments() {
+		if !pathSegments[i].Equals(segment) {
+			return false
+		}
+	}
 	return true
 }
 
